@@ -13,6 +13,7 @@ configuration NGINX cannot tell from that of `c` alone.
 Property theorems: NGF/Props/C17.lean §Pipeline. Core Lean only (imports read-only shared modules).
 -/
 import NGF.Model.PipelineRefs
+import NGF.Model.PipelineForeign
 import NGF.Proofs.PipelineRefs
 import NGF.Proofs.PipelinePerm
 import NGF.Props.C14Pipeline
@@ -21,58 +22,30 @@ namespace NGF.PipelineForeign
 open NGF.Pipeline NGF.PipelineRefs NGF.ListPerm
 open NGF.RefGrant (Grant BackendRef)
 
-/-! ### §1 vocabulary -/
+/-! ### §1 vocabulary: Model/PipelineForeign.lean -/
 
-/-- a set of objects added to a cluster -/
-structure XSet where
-  classes : List GwClass := []
-  gateways : List Gateway := []
-  routes : List RouteR := []
-  services : List Service := []
-  grants : List Grant := []
-
-/-- `c ∪ X`, the objects of X arriving last -/
-def ext (c : ScenarioR) (x : XSet) : ScenarioR :=
-  { cls := c.cls, ctlr := c.ctlr, classes := c.classes ++ x.classes, gateways := c.gateways ++ x.gateways,
-    routes := c.routes ++ x.routes, services := c.services ++ x.services, grants := c.grants ++ x.grants }
-
-/-- `c'` holds exactly the objects of `c` and of `X`, in ANY order (every interleaving, per kind) -/
-structure Mixed (c : ScenarioR) (x : XSet) (c' : ScenarioR) : Prop where
-  cls : c'.cls = c.cls
-  ctlr : c'.ctlr = c.ctlr
-  classes : (c.classes ++ x.classes).Perm c'.classes
-  gateways : (c.gateways ++ x.gateways).Perm c'.gateways
-  routes : (c.routes ++ x.routes).Perm c'.routes
-  services : (c.services ++ x.services).Perm c'.services
-  grants : (c.grants ++ x.grants).Perm c'.grants
-
-/-- the route is in the graph on behalf of the served Gateway: valid, with a parentRef naming it (whatever the section) -/
-def inGraph (g : Gateway) (r : RouteR) : Bool := r.valid && belongsTo g r
-
-/-- the backendRefs of a route -/
-def refsOf (r : RouteR) : List BackendRef :=
-  r.rules.flatMap fun ru => match ru.action with | .forward refs => refs | .redirect .. => []
-
-/-- the ReferenceGrant permits nothing that this backendRef (of an HTTPRoute in `routeNs`) needs -/
-def grantSilent (gr : Grant) (routeNs : String) (ref : BackendRef) : Bool :=
-  !RefGrant.refAllowed (RefGrant.grantKeys gr) (RefGrant.toService (RefGrant.refNs ref routeNs) ref.name)
-    (RefGrant.fromHTTPRoute routeNs)
-
-/-- **X is foreign to `c`**: GatewayClasses of other names; Gateways of other classes; Routes attached to no listener of
-the served Gateway (every parentRef names another / an unknown Gateway or an unknown section, or the namespace is not
-allowed, or the route is invalid …: `attached g r = false`); Services that no backendRef of a route of ours names;
-ReferenceGrants that permit no backendRef of a route of ours. -/
-structure Foreign (c : ScenarioR) (x : XSet) : Prop where
-  classes : ∀ y ∈ x.classes, (y.name == c.cls) = false
-  gateways : ∀ y ∈ x.gateways, (y.cls == c.cls) = false
-  routes : ∀ g, winner (resolve c) = some g → ∀ r ∈ x.routes, attached g r = false
-  services : ∀ g, winner (resolve c) = some g → ∀ r ∈ c.routes, inGraph g r = true → ∀ ref ∈ refsOf r,
-    ∀ s ∈ x.services, ¬ (s.ns = RefGrant.refNs ref r.ns ∧ s.name = ref.name)
-  grants : ∀ g, winner (resolve c) = some g → ∀ r ∈ c.routes, inGraph g r = true → ∀ ref ∈ refsOf r,
-    ∀ gr ∈ x.grants, grantSilent gr r.ns ref = true
-
-/-- Kubernetes: one Service per (namespace, name) -/
-def SvcKeysNodup (svcs : List Service) : Prop := (svcs.map fun s => (s.ns, s.name)).Nodup
+theorem foreign_of_foreignB {c : ScenarioR} {x : XSet} (h : foreignB c x = true) : Foreign c x := by
+  unfold foreignB at h
+  simp only [Bool.and_eq_true, List.all_eq_true, Bool.not_eq_true'] at h
+  obtain ⟨⟨h1, h2⟩, h3⟩ := h
+  refine ⟨h1, h2, ?_, ?_, ?_⟩
+  · intro g hg r hr
+    rw [hg] at h3
+    simp only [Bool.and_eq_true, List.all_eq_true, Bool.not_eq_true'] at h3
+    exact h3.1 r hr
+  · intro g hg r hr hin ref href s hs
+    rw [hg] at h3
+    simp only [Bool.and_eq_true, List.all_eq_true, Bool.not_eq_true', Bool.or_eq_true] at h3
+    rcases h3.2 r hr with h4 | h4
+    · rw [hin] at h4; cases h4
+    · have := (h4 ref href).1 s hs
+      simpa [Bool.and_eq_false_iff] using this
+  · intro g hg r hr hin ref href gr hgr
+    rw [hg] at h3
+    simp only [Bool.and_eq_true, List.all_eq_true, Bool.not_eq_true', Bool.or_eq_true] at h3
+    rcases h3.2 r hr with h4 | h4
+    · rw [hin] at h4; cases h4
+    · exact (h4 ref href).2 gr hgr
 
 /-! ### §2 the served Gateway -/
 
@@ -293,7 +266,8 @@ theorem genR_ext_with (c : ScenarioR) (x : XSet) (hf : Foreign c x) (gs' : List 
     (hpg : (c.grants ++ x.grants).Perm gs') (hps : (c.services ++ x.services).Perm svcs') (hn : SvcKeysNodup svcs') :
     genR { ext c x with grants := gs', services := svcs' } = genR c := by
   have hw : winner (resolve { ext c x with grants := gs', services := svcs' }) = winner (resolve c) :=
-    winner_ext c x hf.classes hf.gateways
+    (winner_congr (s := resolve { ext c x with grants := gs', services := svcs' }) (t := resolve (ext c x))
+      rfl rfl rfl rfl).trans (winner_ext c x hf.classes hf.gateways)
   unfold genR
   apply gen_congr hw
   · intro g hg
@@ -338,7 +312,8 @@ theorem winner_mixed {c : ScenarioR} {x : XSet} {c' : ScenarioR} (hm : Mixed c x
     (hk : KeyInj c'.gateways) : winner (resolve c') = winner (resolve c) := by
   have h1 := NGF.Props.C14Pipeline.winner_perm _ _ (reordered_of_mixed hm) (hk.perm hm.gateways.symm)
   rw [h1]
-  exact winner_ext c x hf.classes hf.gateways
+  exact (winner_congr (s := resolve { ext c x with grants := c'.grants, services := c'.services }) (t := resolve (ext c x))
+    rfl rfl rfl rfl).trans (winner_ext c x hf.classes hf.gateways)
 
 /-- **X anywhere: the same configuration up to the order of servers and locations** -/
 theorem genR_mixed_equiv {c : ScenarioR} {x : XSet} {c' : ScenarioR} (hm : Mixed c x c') (hf : Foreign c x)
@@ -369,6 +344,14 @@ theorem genR_mixed_meaning {c : ScenarioR} {x : XSet} {c' : ScenarioR} (hm : Mix
 
 /-! ### §5 referenced Services -/
 
+theorem filterMap_congr' {α β} {l : List α} {f g : α → Option β} (h : ∀ a ∈ l, f a = g a) :
+    l.filterMap f = l.filterMap g := by
+  induction l with
+  | nil => rfl
+  | cons x xs ih =>
+    simp only [List.filterMap_cons]
+    rw [h x List.mem_cons_self, ih (fun a ha => h a (List.mem_cons_of_mem _ ha))]
+
 theorem routeSvcNames_mixed {gs xg gs' : List Grant} (hp : (gs ++ xg).Perm gs') (r : RouteR)
     (hx : ∀ ref ∈ refsOf r, ∀ gr ∈ xg, grantSilent gr r.ns ref = true) :
     routeSvcNames gs' r = routeSvcNames gs r := by
@@ -379,7 +362,7 @@ theorem routeSvcNames_mixed {gs xg gs' : List Grant} (hp : (gs ++ xg).Perm gs') 
   | redirect code sch h p => rfl
   | forward refs =>
     simp only
-    apply List.filterMap_congr
+    apply filterMap_congr'
     intro ref href
     rw [routeRefVerdict_mixed hp (hx ref (mem_refsOf hru ha href))]
 
@@ -415,6 +398,41 @@ theorem referencedServices_mixed {c : ScenarioR} {x : XSet} {c' : ScenarioR} (hm
     intro r hr
     have hr' := List.mem_filter.mp hr
     exact routeSvcNames_mixed hm.grants r (fun ref href gr hgr => hf.grants g hw r hr'.1 hr'.2 ref href gr hgr)
+
+/-! ### the executable hypotheses are sound -/
+
+theorem mixed_of_mixedB {c : ScenarioR} {x : XSet} {c' : ScenarioR} (h : mixedB c x c' = true) : Mixed c x c' := by
+  unfold mixedB at h
+  simp only [Bool.and_eq_true, beq_iff_eq, List.isPerm_iff] at h
+  obtain ⟨⟨⟨⟨⟨⟨h1, h2⟩, h3⟩, h4⟩, h5⟩, h6⟩, h7⟩ := h
+  exact ⟨h1, h2, h3, h4, h5, h6, h7⟩
+
+theorem keys_of_keysB {c c' : ScenarioR} (h : keysB c c' = true) :
+    KeyInj c'.gateways ∧ RouteKeysNodup (resolve c').routes ∧ SvcKeysNodup c'.services ∧ PathsOKR c := by
+  unfold keysB at h
+  simp only [Bool.and_eq_true] at h
+  obtain ⟨⟨⟨h1, h2⟩, h3⟩, h4⟩ := h
+  refine ⟨NGF.Props.C14Pipeline.keyInj_of_nodup _ h1, ?_, ?_, ?_⟩
+  · unfold RouteKeysNodup
+    unfold nodup at h2
+    exact nodup_of_eraseDups_length (by simpa using h2)
+  · unfold SvcKeysNodup
+    unfold nodup at h3
+    exact nodup_of_eraseDups_length (by simpa using h3)
+  · intro r hr ru hru m hm he
+    simp only [List.all_eq_true] at h4
+    have := h4 r hr ru hru m hm
+    simp [he] at this
+
+/-- the theorem in the form the driver evaluates it: all hypotheses as ONE executable check -/
+theorem genR_meaning_of_hypsB {c : ScenarioR} {x : XSet} {c' : ScenarioR} (h : hypsB c x c' = true) :
+    (∀ q, nginxEvalConf (genR c') q = nginxEvalConf (genR c) q) ∧ Conf.equiv (genR c) (genR c') := by
+  unfold hypsB at h
+  simp only [Bool.and_eq_true] at h
+  obtain ⟨⟨hm, hf⟩, hk⟩ := h
+  obtain ⟨k1, k2, k3, k4⟩ := keys_of_keysB hk
+  exact ⟨genR_mixed_meaning (mixed_of_mixedB hm) (foreign_of_foreignB hf) k1 k2 k3 k4,
+    genR_mixed_equiv (mixed_of_mixedB hm) (foreign_of_foreignB hf) k1 k2 k3⟩
 
 /-! ### what makes a route foreign, syntactically -/
 
